@@ -260,6 +260,12 @@ def rule_r4(ctx, rep):
         for f in sorted(missing_all):
             rep.oblige(("R4", q, "emits", f), False)
             rep.add("R4", fi.qname, f"node.{f[1:]}", f"the exporter's output never depends on the node's {f[1:]}: it cannot parse back to the same tree", fi.loc())
+        # prefixed (qualified) attribute names are only legal with their namespace declared: an exporter that writes the extras
+        # must write the namespace bindings as well
+        if "_extras" in union and "_nsmap" not in union:
+            rep.oblige(("R4", q, "extras need nsmap"), False)
+            rep.add("R4", fi.qname, "node.extras", "the exporter writes the qualified attributes (extras) but never the node's namespace bindings: a prefix "
+                    "other than the ones it declares itself is unbound in the output, which then does not parse", fi.loc())
         for (r, d) in per:
             for f in sorted((REQUIRED[q] & union) - d):
                 guards = enclosing_ifs(fi, r)
@@ -277,8 +283,8 @@ def run(ctx, rep):
         "attribute values, namespace URIs) interpolated into the returned string is checked against the context computed from the "
         "constant text in front of it (text vs attribute value) and must carry the sanitiser of that context; tag names of open / "
         "empty / close tags are one unchanged variable; the re-declaration helper is constant-folded on representative map pairs")
-    rep.rules_run = ["R1", "R2", "R3", "R4", "R5", "R6"]
-    rep.assumptions += ["NOT decided: parse-back equality (needs a parser run)",
+    rep.rules_run = ["R1", "R2", "R3", "R4", "R5", "R6", "R7"]
+    rep.assumptions += ["NOT decided: parse-back equality for arbitrary strings (needs a parser run); R7 decides the tag structure per combination class",
                         "element names and prefixes are XML-legal (the property's quantifier)",
                         "for the EML exporter, content holding pre-escaped entity spellings or inline para tags is outside the quantifier "
                         "(the branch taken only for such content is pruned; constant-literal replace keeps the sanitised status)"]
@@ -293,6 +299,7 @@ def run(ctx, rep):
         # entity tables handed to escape() / quoteattr(): only the predefined XML entities and character references are
         # defined without a DTD -- anything else (&nbsp; ...) makes the output ill-formed
         import re as _re
+        from ..astutil import fold_local as _fl
         from ..valslice import reachable as _reach
         ok_ent = _re.compile(r"^&(amp|lt|gt|quot|apos|#[0-9]+|#x[0-9A-Fa-f]+);$")
         for f_ in _reach(ctx, [ctx.prog.func(q) for q in EXPORTERS]):
@@ -301,7 +308,7 @@ def run(ctx, rep):
                     r_ = ctx.prog.resolve_name_expr(f_.module, n_.func) if isinstance(n_.func, (ast.Name, ast.Attribute)) else None
                     if r_ and r_[0] == "external" and r_[1] in ("xml.sax.saxutils.escape", "xml.sax.saxutils.quoteattr"):
                         rep.count("entity tables handed to escape / quoteattr")
-                        tbl = ctx.prog.const(f_.module, n_.args[1])
+                        tbl = _fl(ctx.prog, f_, n_.args[1])
                         if not isinstance(tbl, dict):
                             rep.oblige(("R6", f_.qname, norm(n_)[:50]), False)
                             rep.add("R6", f_.qname, n_, "the entity table handed to the escaper does not fold to a constant dict: what it writes cannot be checked", f_.loc(n_))
@@ -311,6 +318,9 @@ def run(ctx, rep):
                         if bad_:
                             rep.add("R6", f_.qname, n_, f"the entity table writes {bad_}: only &amp; &lt; &gt; &quot; &apos; and character references are defined in a "
                                     f"document without a DTD, so the output is not well-formed when such a character occurs", f_.loc(n_))
+    if only in (None, "R7"):
+        from .c07_worlds import rule_r7
+        rule_r7(ctx, rep, EXPORTERS)
     if only in (None, "R5"):
         from ..memo import check_slice
         from ..valslice import reachable
